@@ -64,6 +64,32 @@ func c09TypedInts(n int) []int {
 // c09Zoo is one value of (at least) every reflect.Kind plus the odd shapes
 // the property lists, built directly in Go (no Node tree: several of them
 // cannot be described by one).
+// deepPtr wraps v in n levels of pointers.
+func deepPtr(v interface{}, n int) reflect.Value {
+	rv := reflect.ValueOf(v)
+	for i := 0; i < n; i++ {
+		p := reflect.New(rv.Type())
+		p.Elem().Set(rv)
+		rv = p
+	}
+	return rv
+}
+
+func c09DeepPointerEntries() []zooEntry {
+	var out []zooEntry
+	for _, n := range []int{3, 8, 9, 10, 16, 33} {
+		p := deepPtr(1, n)
+		sl := reflect.MakeSlice(reflect.SliceOf(p.Type()), 2, 2)
+		sl.Index(0).Set(p)
+		sl.Index(1).Set(deepPtr(7, n))
+		out = append(out, zooEntry{fmt.Sprintf("%d-level-pointer", n), p.Interface()},
+			zooEntry{fmt.Sprintf("slice-of-%d-level-pointers", n), sl.Interface()},
+			zooEntry{fmt.Sprintf("iface-slice-with-%d-level-pointer", n), []interface{}{p.Interface(), "x", deepPtr("s", n).Interface()}},
+			zooEntry{fmt.Sprintf("map-of-%d-level-pointers", n), map[string]interface{}{"k": p.Interface(), "s": deepPtr("abc", n).Interface(), "l": deepPtr([]int{1}, n).Interface(), "m": deepPtr(map[string]int{"a": 1}, n).Interface()}})
+	}
+	return out
+}
+
 func c09Zoo() []zooEntry {
 	one := 1
 	p := &one
@@ -89,7 +115,7 @@ func c09Zoo() []zooEntry {
 	ch <- 1
 	var arr0 [0]int
 	var ifacePtr interface{} = 5
-	return []zooEntry{
+	zoo := []zooEntry{
 		{"nil", nil},
 		{"bool", true}, {"int", int(5)}, {"int8", int8(-5)}, {"int16", int16(5)}, {"int32", int32(5)}, {"int64", int64(math.MinInt64)},
 		{"uint", uint(5)}, {"uint8", uint8(5)}, {"uint16", uint16(5)}, {"uint32", uint32(5)}, {"uint64", uint64(math.MaxUint64)}, {"uintptr", uintptr(5)},
@@ -120,6 +146,7 @@ func c09Zoo() []zooEntry {
 		{"ptr-jsonnumber", func() *json.Number { n := json.Number("5"); return &n }()},
 		{"typed-nil-in-iface", interface{}(nilp)}, {"cyclic-struct", cyc}, {"cyclic-map", cycMap}, {"cyclic-slice", cycSlice},
 	}
+	return append(zoo, c09DeepPointerEntries()...)
 }
 
 var c09Lits = []string{"abc", "5", "1.5", "true", "", "1e999", "99999999999999999999", "-1", "(", "0x5", "NaN", "k", "1", "18446744073709551615", "1e39", "-9223372036854775809"}
